@@ -181,13 +181,14 @@ func TestC09_HolderSplit(t *testing.T) {
 func TestC09_GovSplit(t *testing.T) {
 	ev := harn.For("C09").Rule(c09Rule)
 	excl := c09KnownGap(t)
-	ev.Floor("gov:split-at-deadline", "", 0.002)
+	ev.Floor("gov:split-at-deadline", "gov:cases", 0.002)
 	harn.Check(t, 60000, 3000000, func(t *rapid.T) {
 		net := c09Net(t)
 		c09SetNet(net)
 		bounds := c09Boundaries()
 		gd, _ := config.GetGovUnboundDeadline()
 		a, m, b := c09Triple(t, bounds)
+		ev.Class("gov:cases")
 		if a < m && m < b && m == gd {
 			ev.Class("gov:split-at-deadline")
 			if excl {
